@@ -169,12 +169,50 @@ def cdata_content_rule(rep):
     rep.floor("C07.d", n, 4)
 
 
+def token_list_rule(rep):
+    from ..engines import guard
+    rep.rule("C07.e", "every name of a NOTATION attribute's list is a declared notation (VC: Notation Attributes): in "
+             "DTDValidator::checkTokenList, with notation checking requested, each token that the scan pointer has stepped over is "
+             "looked up with getNotationDecl before the function can return (CFG must-dataflow under the assumption "
+             "toValidateNotation: generated by the lookup, killed by advancing the scan pointer) — leaving the loop right after the "
+             "last token was delimited skips its check, and <!ATTLIST e f NOTATION (gif|png)> with png undeclared passes")
+    g = core.run_xa([os.path.join(core.REPO, "src/xercesc/validators/DTD/DTDValidator.cpp")], cfg=r"^DTDValidator::checkTokenList$", flat=False)
+    cfg = guard.pruned(guard.Cfg(g.cfg("DTDValidator::checkTokenList")),
+                       lambda leaf: True if (leaf[0] == "p" and leaf[2] == "toValidateNotation") else None)
+    scans = set()
+    for b, i, el in cfg.elements():
+        x = el.get("x")
+        if x and x[0] == "u" and x[1].startswith("++") and x[2][0] == "l":
+            scans.add(x[2][1])
+    if not scans:
+        raise AnalysisBroken("checkTokenList: no scan pointer found")
+
+    def gen(el):
+        return any(c[0] == "c" and c[1].split("::")[-1] == "getNotationDecl" for c in guard.el_top_calls(el)) or \
+            bool(el.get("x")) and guard.mentions(el["x"], lambda y: isinstance(y, list) and y and y[0] == "c" and y[1].split("::")[-1] == "getNotationDecl")
+
+    def kill(el):
+        x = el.get("x")
+        return bool(x) and guard.mentions(x, lambda y: isinstance(y, list) and len(y) == 3 and y[0] == "u" and isinstance(y[1], str) and y[1].startswith("++")
+                                           and y[2][0] == "l" and y[2][1] in scans)
+    if not any(gen(el) for _, _, el in cfg.elements()):
+        raise AnalysisBroken("checkTokenList no longer looks notations up")
+    st = guard.must_state(cfg, gen_el=gen, kill_el=kill, entry=True)
+    rb = guard.reachable(cfg)
+    bad = [cfg.line_of(p) for p in cfg.preds[cfg.exit] if p in rb and not cfg.throws(p) and not st(p, len(cfg.blocks[p]["els"]))]
+    # the gen may sit in the terminator condition of a block: handle blocks whose condition holds the lookup
+    rep.ob("C07.e", "DTDValidator::checkTokenList", not bad, "each delimited token is looked up before the function returns" if not bad else
+           "DTDValidator::checkTokenList can return (via line %s) after stepping over a token without looking it up among the declared "
+           "notations: the last name of a NOTATION list is never checked" % bad, "src/xercesc/validators/DTD/DTDValidator.cpp")
+
+
 def run(rep):
     f = core.library_facts()
     rep.units.update(os.path.relpath(t, core.REPO) for t in f.tus)
     severity_rule(rep)
     glushkov_rule(rep)
     cdata_content_rule(rep)
+    token_list_rule(rep)
     diag.run(rep, f, "C07")
     dispatch.run(rep, f, "C07")
     rep.undecided += ["that the automaton built from a content model accepts exactly the declared language (DFA construction, nullability, "
